@@ -336,6 +336,35 @@ def trace_report(r):
     return missing, fails
 
 
+class Hang(Exception):
+    """The code under test did not return within the time limit."""
+
+
+class time_limit:
+    """Context manager: raises Hang in the main thread after `seconds` (SIGALRM; pure-Python loops are interruptible)."""
+
+    def __init__(self, seconds):
+        self.seconds = seconds
+
+    def __enter__(self):
+        import signal
+        import threading
+        self.active = threading.current_thread() is threading.main_thread()
+        if self.active:
+            def handler(signum, frame):
+                raise Hang()
+            self.old = signal.signal(signal.SIGALRM, handler)
+            signal.setitimer(signal.ITIMER_REAL, self.seconds)
+        return self
+
+    def __exit__(self, *exc):
+        import signal
+        if self.active:
+            signal.setitimer(signal.ITIMER_REAL, 0)
+            signal.signal(signal.SIGALRM, self.old)
+        return False
+
+
 def setup_repo_path():
     """Make `import ombott` resolve to REPO's working tree (fresh interpreter per check)."""
     if REPO not in sys.path:
